@@ -3,6 +3,7 @@ import NrDaemon.Driver.Containers
 import NrDaemon.Driver.Metrics
 import NrDaemon.Driver.Limits
 import NrDaemon.Driver.Respawn
+import NrDaemon.Driver.Frame
 /-!
   Op-line driver (core Lean only; built as a `lean_exe`).
 
@@ -24,6 +25,7 @@ def dispatch (st : DState) (line : String) (impl : Option String) : DState × St
   | some "mt" => let (c, o) := mtStep st.mt t impl; ({ st with mt := c }, o)
   | some "lim" => (st, limStep t impl)
   | some "respawn" => (st, respawnStep t impl)
+  | some "frame" => (st, frameStep t impl)
   | some "reset" => ({}, { model := "ok" })
   | _ => (st, { model := "bad-op" })
 
